@@ -40,18 +40,22 @@ RMaxSeq_(q) == LET RECURSIVE go(_, _)
 RelErr_(sfs, exact, n) == RMaxSeq_([b \in 1..(n - 1) |-> RDiv(RAbs(RSub(sfs[b + 1], exact[b])), RAbs(exact[b]))])
 
 \* record "equil_sfs": spectra of the equilibrium model on successively finer grid lists
+\* (the exact spectrum and the error per run are bound once: UNION {G(x) : x \in {e}} evaluates e once, a LET would be
+\* re-evaluated by TLC at every reference)
+FEquilJudge(r, runs, errs, bound, floor, gridratio) ==
+    (IF r.in.strict THEN F_("EquilibriumWithinOnePointFivePercent", RLeq(errs[Len(runs)], bound)) ELSE {}) \cup
+    F_("EquilibriumErrorVanishesUnderRefinement",
+         \A q \in 1..(Len(runs) - 1) : RLeq(errs[q + 1], RAdd(RMul(gridratio, errs[q]), floor)))
 FEquilSFS(r, bound, floor, gridratio) ==
     LET n == r.in.n
         scale == RMul(RMul(r.in.theta0, r.in.nu), BFac(r.in.beta))
-        exact == EquilSFS(n, r.in.x, r.in.w, r.in.D, scale)
         runs == r.out.runs
-        ok(q) == Len(runs[q].sfs) = n + 1 /\ AllNum_(runs[q].sfs)
-        err(q) == RelErr_(runs[q].sfs, exact, n)
-    IN  F_("SpectrumWellFormed", \A q \in 1..Len(runs) : ok(q)) \cup
-        (IF \A q \in 1..Len(runs) : ok(q)
-         THEN (IF r.in.strict THEN F_("EquilibriumWithinOnePointFivePercent", RLeq(err(Len(runs)), bound)) ELSE {}) \cup
-              F_("EquilibriumErrorVanishesUnderRefinement",
-                   \A q \in 1..(Len(runs) - 1) : RLeq(err(q + 1), RAdd(RMul(gridratio, err(q)), floor)))
+        allok == \A q \in 1..Len(runs) : Len(runs[q].sfs) = n + 1 /\ AllNum_(runs[q].sfs)
+    IN  F_("SpectrumWellFormed", allok) \cup
+        (IF allok
+         THEN UNION { UNION { FEquilJudge(r, runs, errs, bound, floor, gridratio)
+                              : errs \in {RForce([q \in 1..Len(runs) |-> RelErr_(runs[q].sfs, exact, n)])} }
+                      : exact \in {RForce(EquilSFS(n, r.in.x, r.in.w, r.in.D, scale))} }
          ELSE {})
 
 \* record "phi_regime": densities on one grid for parameter values on both sides of a regime switch
